@@ -13,6 +13,7 @@ import (
 	"github.com/WICG/webpackage/go/signedexchange"
 	"github.com/WICG/webpackage/go/signedexchange/structuredheader"
 	"github.com/WICG/webpackage/go/verifh/gen"
+	"github.com/WICG/webpackage/go/verifh/ref/refmice"
 	"github.com/WICG/webpackage/go/verifh/ref/refsxg"
 	"github.com/WICG/webpackage/go/verifh/sxgkit"
 	"github.com/WICG/webpackage/go/verifh/vh"
@@ -206,6 +207,16 @@ func build(c *Case) *sxgkit.Spec {
 		s.ResHeaders = append(s.ResHeaders, gen.HeaderKV{Name: "Expires", Values: []string{c.ExpiresHdr}})
 	}
 	s.ResHeaders = append(s.ResHeaders, c.ResHeaders...)
+	if c.Integrity == "other-complete" {
+		// the OTHER format version's integrity header, with the correct proof for this payload, is
+		// among the signed response headers: only the (unsigned) integrity parameter then decides
+		// which scheme is used, and it must be the one of the exchange's version
+		other := 2
+		if c.Version == "1b1" {
+			other = 3
+		}
+		s.ResHeaders = append(s.ResHeaders, gen.HeaderKV{Name: refmice.HeaderName(other), Values: []string{refmice.Header(other, refmice.Proof0(other, s.Payload(), s.RecordSize))}})
+	}
 	return s
 }
 
@@ -223,7 +234,7 @@ var prop = vh.Define("C09", "policy", func(c Case, r *vh.R) {
 			return
 		}
 		v := "junk/unknown"
-		if c.Integrity == "other" {
+		if c.Integrity == "other" || c.Integrity == "other-complete" {
 			if c.Version == "1b1" {
 				v = refsxg.IntegrityID("1b3")
 			} else {
@@ -345,7 +356,7 @@ func fault(t *rapid.T, c *Case) {
 	case "lifetime":
 		c.Lifetime = rapid.SampledFrom([]int64{604801, 604801, 700000, 1 << 31}).Draw(t, "badlife")
 	case "integrity":
-		c.Integrity = rapid.SampledFrom([]string{"other", "junk"}).Draw(t, "integrity")
+		c.Integrity = rapid.SampledFrom([]string{"other", "junk", "other-complete", "other-complete"}).Draw(t, "integrity")
 	case "res-banned":
 		name := randCase(rapid.SampledFrom(uncached).Draw(t, "banned"), t, "bcase")
 		kv := gen.HeaderKV{Name: name, Values: []string{rapid.SampledFrom([]string{"x", "a=b", "close"}).Draw(t, "bval")}}
@@ -425,7 +436,7 @@ func TestGrid(t *testing.T) {
 		for _, val := range []string{"http", "otherhost", "otherport", "subdomain"} {
 			ok = ok && try(func(c *Case) { c.Validity = val })
 		}
-		for _, in := range []string{"other", "junk"} {
+		for _, in := range []string{"other", "junk", "other-complete"} {
 			ok = ok && try(func(c *Case) { c.Integrity = in })
 		}
 		for _, m := range []string{"HEAD", "POST", "PUT", "get", "Get", "CONNECT", "PATCH"} {
